@@ -53,7 +53,7 @@ LEVEL_NOTE = ('Every step runs the implementation; the only model is the '
 
 VARIANTS = ('direct', 'range', 'two-sheets', 'name', 'range-blank', 'mirror',
             'twin-coord', 'name-case', 'gap', 'range-za', 'range-name',
-            'absent-ref')
+            'absent-ref', 'range-name-mid')
 # absent-ref: every formula also reads a cell that is not stored, on a sheet
 #   of which the original holds another cell (outside every focus) and the
 #   extract therefore nothing: blank in both.
@@ -64,6 +64,15 @@ VARIANTS = ('direct', 'range', 'two-sheets', 'name', 'range-blank', 'mirror',
 #   rectangle literally.
 ZA_COLS = ('Y', 'Z', 'AA', 'AB', 'AC')
 RNAME = 'q1_rng'
+# range-name-mid: the same with the second and third cell named, which may be
+#   formulas over later cells: precedents reached only through the members of
+#   a named range.
+
+
+def named_pair(variant, n):
+    return (1, 2) if variant == 'range-name-mid' else (n - 2, n - 1)
+
+
 # twin-coord: cells 2k and 2k+1 have the same coordinate on two sheets (one
 #   formula then names Sheet1!B1 and Sheet2!B1);
 # name-case: the formulas spell the defined name in upper case (whatever the
@@ -140,8 +149,10 @@ def formula_of(i, deps_i, variant, n):
     if variant == 'range-za' and len(deps_i) >= 2 and \
             deps_i == list(range(deps_i[0], deps_i[-1] + 1)):
         return '=SUM(%s1:%s1)' % (ZA_COLS[deps_i[0]], ZA_COLS[deps_i[-1]])
-    if variant == 'range-name' and deps_i[-2:] == [n - 2, n - 1]:
-        rest = ''.join('+B%d*%d' % (j + 1, MULT[j]) for j in deps_i[:-2])
+    if variant in ('range-name', 'range-name-mid') and \
+            set(named_pair(variant, n)) <= set(deps_i):
+        rest = ''.join('+B%d*%d' % (j + 1, MULT[j]) for j in deps_i
+                       if j not in named_pair(variant, n))
         return '=SUM(%s)%s' % (RNAME, rest)
     if variant == 'range-blank':
         # a formula whose value is the empty text while the last cell (an
@@ -188,19 +199,21 @@ def build(code, n, variant):
             model = lib.ModelCompiler().read_and_parse_archive(path)
         os.unlink(path)
         return model, deps
-    if variant == 'range-name':
+    if variant in ('range-name', 'range-name-mid'):
+        lo, hi = named_pair(variant, n)
         cells = {}
         for i in range(n):
             f = formula_of(i, deps[i], variant, n)
             cells['B%d' % (i + 1)] = {'form': 'f', 'f': f[1:]} if f else \
                 {'form': 'n', 'v': i + 1}
         # outside every focus: the same rectangle, written literally
-        cells['K9'] = {'form': 'f', 'f': 'MAX(B%d:B%d)' % (n - 1, n)}
+        cells['K9'] = {'form': 'f', 'f': 'MAX(B%d:B%d)' % (lo + 1, hi + 1)}
         path = os.path.join(tmpdir(), 'r_%d_%d_%d.xlsx' % (os.getpid(), n,
                                                           code))
         with open(path, 'wb') as fp:
             fp.write(R.build([('Sheet1', cells)],
-                             {RNAME: 'Sheet1!$B$%d:$B$%d' % (n - 1, n)}))
+                             {RNAME: 'Sheet1!$B$%d:$B$%d' % (lo + 1,
+                                                             hi + 1)}))
         import warnings
         with warnings.catch_warnings():
             warnings.simplefilter('ignore')
